@@ -360,6 +360,13 @@ class MultiRelationLink(IRelationLink[TCircuitOperation], Generic[TCircuitOperat
         if len(self._reference_nodes) == 0:
             # raise NoReferenceOperationException(f"Expects at least 1 reference node, instead: {self._reference_nodes}.")
             return None
+        # Iterate over reference node and determine earliest
+        if self._relation_to_group == MultiRelationType.EARLIEST:
+            earliest_node: TCircuitOperation = self._reference_nodes[0]
+            for node in self._reference_nodes:
+                if node.start_time < earliest_node.start_time:
+                    earliest_node = node
+            return earliest_node
         # Iterate over reference node and determine latest
         latest_node: TCircuitOperation = self._reference_nodes[0]
         for node in self._reference_nodes:
